@@ -28,6 +28,15 @@ impl<T> PeekIt<T> {
             !(old(self).rest().len() > 0 && old(p).holds(old(self).rest()[0])) ==> r is None && final(self).rest() == old(self).rest(),
     { unimplemented!() }
     #[verifier::external_body]
+    pub fn peek(&mut self) -> (r: Option<&T>)
+        ensures final(self).rest() == old(self).rest(), old(self).rest().len() == 0 ==> r is None, old(self).rest().len() > 0 ==> r is Some && *r->Some_0 == old(self).rest()[0]
+    { unimplemented!() }
+    #[verifier::external_body]
+    pub fn next(&mut self) -> (r: Option<T>)
+        ensures old(self).rest().len() == 0 ==> r is None && final(self).rest() == old(self).rest(),
+                old(self).rest().len() > 0 ==> r == Some(old(self).rest()[0]) && final(self).rest() == old(self).rest().skip(1)
+    { unimplemented!() }
+    #[verifier::external_body]
     pub fn size_hint(&self) -> (r: (usize, Option<usize>))
         ensures r.0 <= self.rest().len(), r.1 is Some ==> self.rest().len() <= r.1->Some_0
     { unimplemented!() }
@@ -44,7 +53,21 @@ pub proof fn lemma_prefix_le<T>(p: PredFn<T>, s: Seq<T>)
 {
     if s.len() > 0 && p.holds(s[0]) { lemma_prefix_le(p, s.skip(1)); }
 }
+pub proof fn lemma_out_step<T>(p: PredFn<T>, s: Seq<T>)
+    ensures
+        s.len() > 0 && p.holds(s[0]) ==> prefix_len(p, s) > 0 && s.take(prefix_len(p, s) as int)[0] == s[0]
+            && s.take(prefix_len(p, s) as int).skip(1) == s.skip(1).take(prefix_len(p, s.skip(1)) as int),
+        !(s.len() > 0 && p.holds(s[0])) ==> prefix_len(p, s) == 0,
+        prefix_len(p, s) <= s.len(),
+{
+    lemma_prefix_le(p, s);
+    if s.len() > 0 && p.holds(s[0]) {
+        lemma_prefix_le(p, s.skip(1));
+        assert(s.take(prefix_len(p, s) as int).skip(1) =~= s.skip(1).take(prefix_len(p, s.skip(1)) as int));
+    }
+}
 //@ obligation lemma_prefix_le props=C19
+//@ obligation lemma_out_step props=C19
 
 // R9: the borrowed `&'a mut Peekable<I>` and the predicate type parameter become the opaque types above
 //@ struct file=src/core/peekable.rs name=PeekingTakeWhile generics="<T>"
@@ -85,6 +108,62 @@ impl<T> PeekingTakeWhile<T> {
 //@ endins
     pub fn size_hint(&self) -> (r: (usize, Option<usize>))
         ensures r.0 <= self.out().len(), r.1 is Some ==> self.out().len() <= r.1->Some_0,                 //@ clause take_while_p.size_hint_bounds_what_next_yields [C19]
+//@ body
+}
+
+// the folding closure `FnMut(B, T) -> B` as a function of its arguments (ASSUMED[callbacks-are-functions])
+#[verifier::external_body]
+#[verifier::reject_recursive_types(B)]
+#[verifier::reject_recursive_types(T)]
+pub struct FoldFn<B, T> { x: core::marker::PhantomData<(B, T)> }
+impl<B, T> FoldFn<B, T> {
+    pub uninterp spec fn apply(&self, b: B, x: T) -> B;
+    #[verifier::external_body]
+    pub fn call(&mut self, b: B, x: T) -> (r: B) ensures r == old(self).apply(b, x), *final(self) == *old(self) { unimplemented!() }
+}
+pub open spec fn fold_spec<B, T>(f: FoldFn<B, T>, acc: B, s: Seq<T>) -> B
+    decreases s.len()
+{
+    if s.len() == 0 { acc } else { fold_spec(f, f.apply(acc, s[0]), s.skip(1)) }
+}
+impl<T> PeekingTakeWhile<T> {
+//@ item fold file=src/core/peekable.rs block="impl<I, P> Iterator for PeekingTakeWhile<'_, I, P> where I: Iterator, P: FnMut(&I::Item) -> bool," fn=fold props=C19,C12
+//@ sig fn fold<B, F>(mut self, mut accum: B, mut f: F) -> B where F: FnMut(B, I::Item) -> B
+// R2: `mut self` / `mut accum` / `mut f` parameters become locals; R13: the folding closure is called through its opaque type
+//@ rw R2 + re⟦\bself\b⟧ => ⟦this⟧
+//@ rw R13 1 ⟦f(accum, x)⟧ => ⟦f.call(accum, x)⟧
+//@ ins start
+        let mut this = self;
+        let mut accum = accum0;
+        let mut f = f0;
+        let ghost out0 = this.out();
+        let ghost mut gr = this.iter.rest();       // what the underlying iterator held at the loop head
+//@ endins
+//@ loop 1
+            invariant
+                f == f0, this.predicate == self.predicate, gr == this.iter.rest(),
+                fold_spec(f0, accum, this.out()) == fold_spec(f0, accum0, out0),
+            ensures this.out().len() == 0
+            decreases this.iter.rest().len()
+//@ endloop
+//@ ins after re⟦while let Some\(x\) = this\.iter\.next_if\(&mut this\.predicate\) \{⟧
+            proof {
+                lemma_out_step(this.predicate, gr);
+                assert(gr.len() > 0 && this.predicate.holds(gr[0]) && x == gr[0]);
+                let old_out = gr.take(prefix_len(this.predicate, gr) as int);
+                assert(this.out() == old_out.skip(1));
+                assert(old_out.len() > 0 && old_out[0] == x);
+                assert(fold_spec(f0, accum, old_out) == fold_spec(f0, f0.apply(accum, x), old_out.skip(1)));
+            }
+//@ endins
+//@ ins loopend 1
+            proof { gr = this.iter.rest(); }
+//@ endins
+//@ ins afterloop 1
+        proof { lemma_out_step(this.predicate, gr); }
+//@ endins
+    pub fn fold<B>(self, accum0: B, f0: FoldFn<B, T>) -> (r: B)
+        ensures r == fold_spec(f0, accum0, self.out()),                                                       //@ clause take_while_p.fold_folds_exactly_the_longest_prefix [C19]
 //@ body
 }
 
